@@ -2065,7 +2065,9 @@ impl World {
             }
             Err((msg, loc)) => {
                 if has {
-                    ctx.v("C20", format!("panic in ready() on clone: {}", msg.chars().map(|c| if c.is_ascii_digit() { '#' } else { c }).collect::<String>()), format!("node {}: {} @ {}", i + 1, msg, loc));
+                    // same signature as the panic the real call would give
+                    let (kind, detail) = self.panic_kind(i, "ready", &msg, &loc);
+                    ctx.v("C20", kind, format!("{} (on a clone, has_ready() was true)", detail));
                 }
             }
         }
